@@ -267,10 +267,8 @@ Definition expr_line (e : expr) : option nat :=
   | EIndex ln _ _ | EDot ln _ _ | ECall ln _ _ _ => Some ln
   end.
 
-Section Evaluator.
-Variable cx : ctx.
 
-Fixpoint eval_expr (fuel : nat) (en : env) (e : expr) {struct fuel} : outcome value :=
+Fixpoint eval_expr (cx : ctx) (fuel : nat) (en : env) (e : expr) {struct fuel} : outcome value :=
   match fuel with
   | O => OutOfFuel
   | S f =>
@@ -286,27 +284,27 @@ Fixpoint eval_expr (fuel : nat) (en : env) (e : expr) {struct fuel} : outcome va
     | EStr _ s => Ok (VStr (eval_string_lit s))
     | ENil _ => Ok VNil
     | EBool _ b => Ok (VBool b)
-    | EArr _ els => let! vs := eval_exprs f en els in Ok (VArr vs)
+    | EArr _ els => let! vs := eval_exprs cx f en els in Ok (VArr vs)
     | EObj _ pairs =>
-      let! kvs := eval_pairs f en (asort pairs) in
+      let! kvs := eval_pairs cx f en (asort pairs) in
       Ok (VObj (fold_left (fun (acc : list (bytes * value)) kv => aset (fst kv) (snd kv) acc) kvs []))
     | EPrefix ln op r =>
-      let! rv := eval_expr f en r in eval_prefix_op ln op rv
+      let! rv := eval_expr cx f en r in eval_prefix_op ln op rv
     | ETernary _ c a b =>
-      let! cv := eval_expr f en c in
-      if truthy cv then eval_expr f en a else eval_expr f en b
+      let! cv := eval_expr cx f en c in
+      if truthy cv then eval_expr cx f en a else eval_expr cx f en b
     | EInfix _ op l r =>
-      let! lv := eval_expr f en l in
-      let! rv := eval_expr f en r in
+      let! lv := eval_expr cx f en l in
+      let! rv := eval_expr cx f en r in
       match expr_line l with
       | Some lln => eval_infix_op lln op lv rv
       | None => Panic
       end
     | EPostfix ln op l =>
-      let! lv := eval_expr f en l in eval_postfix_op ln op lv
+      let! lv := eval_expr cx f en l in eval_postfix_op ln op lv
     | EIndex ln l i =>
-      let! lv := eval_expr f en l in
-      let! iv := eval_expr f en i in
+      let! lv := eval_expr cx f en l in
+      let! iv := eval_expr cx f en i in
       match lv, iv with
       | VArr els, VInt idx =>
         if (idx <? 0)%Z || (Z.of_nat (List.length els) <=? idx)%Z then Ok VNil
@@ -316,7 +314,7 @@ Fixpoint eval_expr (fuel : nat) (en : env) (e : expr) {struct fuel} : outcome va
       | _, _ => Fail ln (fmt ErrIndexNotSupported [type_name lv])
       end
     | EDot ln l key =>
-      let! lv := eval_expr f en l in
+      let! lv := eval_expr cx f en l in
       match key with
       | EIdent _ k =>
         match lv with
@@ -326,9 +324,9 @@ Fixpoint eval_expr (fuel : nat) (en : env) (e : expr) {struct fuel} : outcome va
       | _ => Panic
       end
     | ECall ln recv fname args =>
-      let! rv := eval_expr f en recv in
+      let! rv := eval_expr cx f en recv in
       if negb (has_func_table rv) then Fail ln (fmt ErrNoFuncForThisType [fname; type_name rv]) else
-      let! avs := eval_exprs f en args in
+      let! avs := eval_exprs cx f en args in
       match call_builtin fname rv avs with
       | Some (BOk v) => Ok v
       | Some (BErr msg) => Fail ln msg
@@ -342,20 +340,20 @@ Fixpoint eval_expr (fuel : nat) (en : env) (e : expr) {struct fuel} : outcome va
     end
   end
 
-with eval_exprs (fuel : nat) (en : env) (es : list expr) {struct fuel} : outcome (list value) :=
+with eval_exprs (cx : ctx) (fuel : nat) (en : env) (es : list expr) {struct fuel} : outcome (list value) :=
   match fuel with
   | O => OutOfFuel
   | S f =>
     match es with
     | [] => Ok []
     | e :: es' =>
-      let! v := eval_expr f en e in
-      let! vs := eval_exprs f en es' in
+      let! v := eval_expr cx f en e in
+      let! vs := eval_exprs cx f en es' in
       Ok (v :: vs)
     end
   end
 
-with eval_pairs (fuel : nat) (en : env) (ps : list (bytes * expr)) {struct fuel}
+with eval_pairs (cx : ctx) (fuel : nat) (en : env) (ps : list (bytes * expr)) {struct fuel}
      : outcome (list (bytes * value)) :=
   match fuel with
   | O => OutOfFuel
@@ -363,8 +361,8 @@ with eval_pairs (fuel : nat) (en : env) (ps : list (bytes * expr)) {struct fuel}
     match ps with
     | [] => Ok []
     | (k, e) :: ps' =>
-      let! v := eval_expr f en e in
-      let! vs := eval_pairs f en ps' in
+      let! v := eval_expr cx f en e in
+      let! vs := eval_pairs cx f en ps' in
       Ok ((k, v) :: vs)
     end
   end.
@@ -379,48 +377,48 @@ Definition env_set_ignore (e : env) (k : bytes) (v : value) : env :=
 
 (* Statements return the Go object and the environment chain as it is afterwards
    (only the innermost frame can have changed, see Proofs/Scopes.v). *)
-Fixpoint eval_stmt (fuel : nat) (en : env) (s : stmt) {struct fuel} : outcome (value * env) :=
+Fixpoint eval_stmt (cx : ctx) (fuel : nat) (en : env) (s : stmt) {struct fuel} : outcome (value * env) :=
   match fuel with
   | O => OutOfFuel
   | S f =>
     match s with
     | SNull => Panic
     | SHtml _ lit => Ok (VHtml lit, en)
-    | SExpr e => let! v := eval_expr f en e in Ok (v, en)
+    | SExpr e => let! v := eval_expr cx f en e in Ok (v, en)
     | SAssign ln name e =>
-      let! v := eval_expr f en e in
+      let! v := eval_expr cx f en e in
       match env_set en name v with
       | inl en' => Ok (VNil, en')
       | inr msg => Fail ln msg
       end
     | SIf _ c thn alts alt =>
-      let! cv := eval_expr f en c in
+      let! cv := eval_expr cx f en c in
       if truthy cv then
-        let! r := eval_block f ([] :: en) thn [] in Ok (fst r, tl (snd r))
-      else eval_alts f en alts alt
+        let! r := eval_block cx f ([] :: en) thn [] in Ok (fst r, tl (snd r))
+      else eval_alts cx f en alts alt
     | SFor ln init c post body alt =>
       let en0 := [] :: en in
-      let! r0 := (match init with SNull => Ok (VNil, en0) | _ => eval_stmt f en0 init end) in
+      let! r0 := (match init with SNull => Ok (VNil, en0) | _ => eval_stmt cx f en0 init end) in
       let en1 := snd r0 in
       let! enter := (match c with
                      | ENull => Ok true
-                     | _ => let! cv := eval_expr f en1 c in Ok (truthy cv)
+                     | _ => let! cv := eval_expr cx f en1 c in Ok (truthy cv)
                      end) in
       match enter, alt with
-      | false, Some a => let! r := eval_block f en1 a [] in Ok (fst r, tl (snd r))
+      | false, Some a => let! r := eval_block cx f en1 a [] in Ok (fst r, tl (snd r))
       | _, _ =>
-        let! r := for_loop f ln init c post body en1 [] in
+        let! r := for_loop cx f ln init c post body en1 [] in
         Ok (VHtml (fst r), tl (snd r))
       end
     | SEach ln var arr body alt =>
       let en0 := [] :: en in
-      let! av := eval_expr f en0 arr in
+      let! av := eval_expr cx f en0 arr in
       match av with
       | VArr elems =>
         match elems, alt with
-        | [], Some a => let! r := eval_block f en0 a [] in Ok (fst r, tl (snd r))
+        | [], Some a => let! r := eval_block cx f en0 a [] in Ok (fst r, tl (snd r))
         | _, _ =>
-          let! r := each_loop f ln var body (List.length elems) 0 elems en0 [] in
+          let! r := each_loop cx f ln var body (List.length elems) 0 elems en0 [] in
           Ok (VHtml (fst r), tl (snd r))
         end
       | _ => Fail ln (fmt ErrEachExpectsArray [type_name av])
@@ -430,25 +428,25 @@ Fixpoint eval_stmt (fuel : nat) (en : env) (s : stmt) {struct fuel} : outcome (v
       | None => Fail ln (fmt ErrUseStmtMustHaveProgram [])
       | Some (isLayout, hasUse, ss) =>
         if isLayout && hasUse then Fail ln (fmt ErrUseStmtNotAllowed []) else
-        let! r := eval_program f en ss [] in
+        let! r := eval_program cx f en ss [] in
         Ok (VUse (VHtml (fst r)), snd r)
       end
     | SReserve _ _ _ ins =>
       match ins with
       | None => Ok (VNil, en)
       | Some (iln, arg, Some b) =>
-        let! r := eval_block f en b [] in Ok (VReserve (fst r) None, snd r)
+        let! r := eval_block cx f en b [] in Ok (VReserve (fst r) None, snd r)
       | Some (iln, arg, None) =>
         match arg with
         | ENull => Fail iln (fmt ErrInsertMustHaveContent [])
-        | _ => let! v := eval_expr f en arg in Ok (VReserve VNil (Some v), en)
+        | _ => let! v := eval_expr cx f en arg in Ok (VReserve VNil (Some v), en)
         end
       end
     | SInsert _ _ _ _ => Ok (VNil, en)
     | SBreakIf _ c =>
-      let! cv := eval_expr f en c in Ok (if truthy cv then VBreak else VNil, en)
+      let! cv := eval_expr cx f en c in Ok (if truthy cv then VBreak else VNil, en)
     | SContinueIf _ c =>
-      let! cv := eval_expr f en c in Ok (if truthy cv then VContinue else VNil, en)
+      let! cv := eval_expr cx f en c in Ok (if truthy cv then VContinue else VNil, en)
     | SBreak => Ok (VBreak, en)
     | SContinue => Ok (VContinue, en)
     | SComponent ln _ name arg _ block =>
@@ -458,17 +456,17 @@ Fixpoint eval_stmt (fuel : nat) (en : env) (s : stmt) {struct fuel} : outcome (v
         let! en1 :=
           (match arg with
            | Some (EObj _ pairs) =>
-             let! kvs := eval_pairs f en (asort pairs) in
+             let! kvs := eval_pairs cx f en (asort pairs) in
              Ok (fold_left (fun e kv => env_set_ignore e (fst kv) (snd kv)) kvs ([] :: en))
            | Some _ => Panic
            | None => Ok ([] :: en)
            end) in
-        let! r := eval_program f en1 ss [] in
+        let! r := eval_program cx f en1 ss [] in
         Ok (VComponent (VHtml (fst r)), tl (snd r))
       end
     | SSlot _ _ body =>
       match body with
-      | Some b => let! r := eval_block f en b [] in Ok (VSlot (fst r), snd r)
+      | Some b => let! r := eval_block cx f en b [] in Ok (VSlot (fst r), snd r)
       | None => Ok (VSlot VNil, en)
       end
     | SDump _ _ => Unmodelled
@@ -476,7 +474,7 @@ Fixpoint eval_stmt (fuel : nat) (en : env) (s : stmt) {struct fuel} : outcome (v
   end
 
 (* evalBlockStmt: acc holds the evaluated elements, newest first *)
-with eval_block (fuel : nat) (en : env) (ss : list stmt) (acc : list value) {struct fuel}
+with eval_block (cx : ctx) (fuel : nat) (en : env) (ss : list stmt) (acc : list value) {struct fuel}
      : outcome (value * env) :=
   match fuel with
   | O => OutOfFuel
@@ -484,35 +482,35 @@ with eval_block (fuel : nat) (en : env) (ss : list stmt) (acc : list value) {str
     match ss with
     | [] => Ok (VBlock (rev acc), en)
     | s :: ss' =>
-      let! r := eval_stmt f en s in
+      let! r := eval_stmt cx f en s in
       let v := fst r in
       if has_break v || has_continue v then Ok (VBlock (rev (v :: acc)), snd r)
-      else eval_block f (snd r) ss' (v :: acc)
+      else eval_block cx f (snd r) ss' (v :: acc)
     end
   end
 
 (* the @elseif chain and @else of evalIfStmt: conditions in the enclosing scope,
    bodies in the one child scope *)
-with eval_alts (fuel : nat) (en : env) (alts : list (expr * list stmt)) (alt : option (list stmt))
+with eval_alts (cx : ctx) (fuel : nat) (en : env) (alts : list (expr * list stmt)) (alt : option (list stmt))
      {struct fuel} : outcome (value * env) :=
   match fuel with
   | O => OutOfFuel
   | S f =>
     match alts with
     | (c, b) :: alts' =>
-      let! cv := eval_expr f en c in
-      if truthy cv then let! r := eval_block f ([] :: en) b [] in Ok (fst r, tl (snd r))
-      else eval_alts f en alts' alt
+      let! cv := eval_expr cx f en c in
+      if truthy cv then let! r := eval_block cx f ([] :: en) b [] in Ok (fst r, tl (snd r))
+      else eval_alts cx f en alts' alt
     | [] =>
       match alt with
-      | Some a => let! r := eval_block f ([] :: en) a [] in Ok (fst r, tl (snd r))
+      | Some a => let! r := eval_block cx f ([] :: en) a [] in Ok (fst r, tl (snd r))
       | None => Ok (VNil, en)
       end
     end
   end
 
 (* evalProgram: concatenated String() of the statements *)
-with eval_program (fuel : nat) (en : env) (ss : list stmt) (out : bytes) {struct fuel}
+with eval_program (cx : ctx) (fuel : nat) (en : env) (ss : list stmt) (out : bytes) {struct fuel}
      : outcome (bytes * env) :=
   match fuel with
   | O => OutOfFuel
@@ -520,46 +518,46 @@ with eval_program (fuel : nat) (en : env) (ss : list stmt) (out : bytes) {struct
     match ss with
     | [] => Ok (out, en)
     | s :: ss' =>
-      let! r := eval_stmt f en s in
+      let! r := eval_stmt cx f en s in
       let! str := str_of (fst r) in
-      eval_program f (snd r) ss' (out ++ str)
+      eval_program cx f (snd r) ss' (out ++ str)
     end
   end
 
 (* the loop of evalForStmt; en is the loop's own scope chain *)
-with for_loop (fuel : nat) (ln : nat) (init : stmt) (c : expr) (post : stmt) (body : list stmt)
+with for_loop (cx : ctx) (fuel : nat) (ln : nat) (init : stmt) (c : expr) (post : stmt) (body : list stmt)
               (en : env) (out : bytes) {struct fuel} : outcome (bytes * env) :=
   match fuel with
   | O => OutOfFuel
   | S f =>
     let! go := (match c with
                 | ENull => Ok true
-                | _ => let! cv := eval_expr f en c in Ok (truthy cv)
+                | _ => let! cv := eval_expr cx f en c in Ok (truthy cv)
                 end) in
     if negb go then Ok (out, en) else
-    let! r := eval_block f en body [] in
+    let! r := eval_block cx f en body [] in
     let! str := str_of (fst r) in
     let out' := out ++ str in
     let en1 := snd r in
     if has_break (fst r) then Ok (out', en1) else
     match post with
-    | SNull => for_loop f ln init c post body en1 out'
+    | SNull => for_loop cx f ln init c post body en1 out'
     | _ =>
-      let! pr := eval_stmt f en1 post in
+      let! pr := eval_stmt cx f en1 post in
       let en2 := snd pr in
       match init, post with
       | SAssign _ name _, SExpr _ =>
         match env_set en2 name (fst pr) with
-        | inl en3 => for_loop f ln init c post body en3 out'
+        | inl en3 => for_loop cx f ln init c post body en3 out'
         | inr msg => Fail ln msg
         end
-      | _, _ => for_loop f ln init c post body en2 out'
+      | _, _ => for_loop cx f ln init c post body en2 out'
       end
     end
   end
 
 (* the loop of evalEachStmt *)
-with each_loop (fuel : nat) (ln : nat) (var : bytes) (body : list stmt) (len i : nat)
+with each_loop (cx : ctx) (fuel : nat) (ln : nat) (var : bytes) (body : list stmt) (len i : nat)
                (elems : list value) (en : env) (out : bytes) {struct fuel} : outcome (bytes * env) :=
   match fuel with
   | O => OutOfFuel
@@ -571,15 +569,14 @@ with each_loop (fuel : nat) (ln : nat) (var : bytes) (body : list stmt) (len i :
       | inr msg => Fail ln msg
       | inl en1 =>
         let en2 := env_set_loop en1 i len in
-        let! r := eval_block f en2 body [] in
+        let! r := eval_block cx f en2 body [] in
         let! str := str_of (fst r) in
         if has_break (fst r) then Ok (out ++ str, snd r)
-        else each_loop f ln var body len (S i) elems' (snd r) (out ++ str)
+        else each_loop cx f ln var body len (S i) elems' (snd r) (out ++ str)
       end
     end
   end.
 
-End Evaluator.
 
 (* ---------- EnvFromMap *)
 Inductive env_result :=
